@@ -158,6 +158,10 @@ struct C14 : vr::Driver {
       for (size_t k = 0; k < tri.size(); k++)
         if (th || k == 1 || k == 2 || k == 3) cfgs.push_back({{}, tri[k], 1});
       cfgs.push_back({{{"a", 0}}, {Da, Wa2, Da}, 1});
+      // the directory is removed and re-created, and is not empty any more when the main loop looks again
+      EnvOp Rd{'R', "", 0};
+      cfgs.push_back({{}, {Rd, Wa1}, 1});
+      cfgs.push_back({{{"a", 0}}, {Rd, Wa2}, 1});
       if (th) cfgs.push_back({{{"a", 0}}, {Da, Aa2, Wa1}, 1});
     }
     if (th)
@@ -169,6 +173,7 @@ struct C14 : vr::Driver {
   std::string describe(size_t i) override { return cfgs[i].str(); }
   std::string klass(size_t) override { return "watcher"; }
   double scenarioTimeoutSec() override { return 3000; }
+  bool tieBreakNondeterminism() override { return true; }
   double deadlineSec(const std::string& tier) override { return tier == "quick" ? 240 : 1500; }
 
   vx::Body bodyFor(const Cfg& c) {
@@ -177,6 +182,7 @@ struct C14 : vr::Driver {
       std::cerr.rdbuf(&nb);
       std::string top = "/dev/shm/c14." + std::to_string(getpid());
       std::string dir = top + "/dropins";
+      vb_rm(top);  // leftovers of an earlier process with the same pid
       mkdir(top.c_str(), 0700);
       mkdir(dir.c_str(), 0700);
       int nextStamp = 1;
@@ -382,6 +388,7 @@ struct C14 : vr::Driver {
     r.counters["states"] += (long long)st.outcomes.size();
     r.counters["transitions"] += (long long)st.schedules;
     r.counters["schedules"] += (long long)st.schedules;
+    r.counters["nd_schedules_re_executed_after_divergence_or_timeout"] += (long long)st.retries;
     r.counters["configs_bound_completed"] += done ? 1 : 0;
     r.counters["configs_capped"] += done ? 0 : 1;
     for (auto& o : st.outcomes) r.nontrivial(c.str() + o);
